@@ -29,19 +29,22 @@ ENABLED = True
 LEVEL = "other"
 LEVEL_TEXT = ("Necessary-condition proof + build sampling. tools/gen_features.py regenerates the cargo feature graph of the workspace "
               "(crates, features, forwarding edges, dependency edges, proc-macro crates), the coherence rules (cfg(feature)-gated enum "
-              "variants of one crate against the gated match arms / mentions in the other crates; one curated macro-output rule) and the "
-              "compile_error! feature guards from the current sources. Coq: an executable model of cargo's resolver-2 feature unification "
-              "per package and build kind (host/target) is proved to compute the least fixed point of the feature graph and to terminate; "
-              "for EVERY downstream selection (any list of workspace crates with any feature subsets) every unit satisfies every coherence "
-              "rule except two named known classes, which are refuted by kernel-evaluated witnesses. rustc accepting the crates is not "
-              "expressible as a model: it is sampled by `cargo check --offline` of downstream crates in a scratch copy (each prediction "
-              "of the model compared with the build result), and the unification model is compared with cargo's own resolution "
-              "(`cargo tree`) on hundreds of selections.")
-LEVEL_NOTE = ("PARTIAL: coherence is necessary, not sufficient, for building; the build side is a sample (quick ~10 builds, thorough: "
-              "powerset of the small crates + ~100 samples of zbus/zvariant), never a proof. Out of scope: dev-dependencies / test, bench "
-              "and example targets, platform-only features and cfg(unix)/cfg(windows) items, non-linux targets, weak `dep?/feat` features "
-              "(none in the tree; the theorems are stated for a graph without them). Known findings: zbus + zvariant[gvariant] "
-              "(gvariant_split) and zbus[no blocking-api] + zbus_macros[blocking-api] (blocking_split) do not build.")
+              "variants of one crate against the gated match arms / mentions in the other crates, unless the match has a "
+              "cfg(not(feature)) catch-all arm; one curated macro-output rule) and the compile_error! feature guards from the current "
+              "sources. Coq: an executable model of cargo's resolver-2 feature unification per package and build kind (host/target) is "
+              "proved to compute the least fixed point of the feature graph and to terminate; for EVERY downstream selection (any list "
+              "of workspace crates with any feature subsets) every unit satisfies every coherence rule except one named known class "
+              "(blocking_split), which is refuted by a kernel-evaluated witness. rustc accepting the crates is not expressible as a "
+              "model: it is sampled by `cargo check --offline` of downstream crates in a scratch copy (each prediction of the model "
+              "compared with the build result), and the unification model is compared with cargo's own resolution (`cargo tree`).")
+LEVEL_NOTE = ("PARTIAL: coherence is necessary, not sufficient, for building; the build side is a sample, never a proof — quick: 6 builds "
+              "(all-features of zbus and of zvariant, the fixed gvariant witness, the known blocking witness, 2 seeded samples) and ~20 "
+              "`cargo tree` comparisons within 60 s; thorough: powerset of the small crates, every single feature, ~105 samples of "
+              "zbus/zvariant/mixed crates, ~2200 tree comparisons. Out of scope: dev-dependencies / test, bench and example targets, "
+              "platform-only features and cfg(unix)/cfg(windows) items, non-linux targets, weak `dep?/feat` features (none in the tree; "
+              "the theorems are stated for a graph without them). Known finding: zbus[no blocking-api] + zbus_macros[blocking-api] "
+              "(blocking_split) does not build. Fixed (b1eb512d): zbus + zvariant[gvariant] (gvariant_split) builds again and is "
+              "built on every run.")
 TRUSTED = ["tools/gen_features.py (TOML reader + regexes over the sources; its graph part is cross-checked against `cargo tree` on every run, "
            "its rules by the build of the model's witnesses)",
            "cargo 1.95 feature resolver as the reference for K1; rustc as the judge for K2",
@@ -51,12 +54,15 @@ ASSUMPTIONS = ["no dev-dependencies are activated (cargo check of library target
                "host platform = x86_64 linux; [target.'cfg(..)'] tables are evaluated for it",
                "the manifests contain no weak dependency features (checked: Proofs.no_weak)",
                "a selection is a downstream crate with an empty lib.rs: defects that need user code (e.g. a derive used on a type) are not exercised"]
-RULE = ("case = `tree|build <crate:default-flag:features> ...` (a downstream [dependencies] table). tree cases: every single feature of every "
-        "crate, no-default, all-features, the refutation witnesses, PRNG mixes of 1-4 crates with random feature subsets; build cases: the "
-        "witnesses, the repaired witness, then a seed-dependent rotation of single features, all-features, small-crate powersets, mixed "
-        "downstream crates and powerset samples of zbus/zvariant. non-trivial = the selection names a feature or more than one crate")
+RULE = ("case = `tree|build <crate:default-flag:features> ...` (a downstream [dependencies] table). quick: tree = corpus + witnesses + "
+        "all-features + 10 PRNG mixes of 1-4 crates with random feature subsets (60 s budget); build = zbus all-features, the fixed "
+        "witness zbus+zvariant[gvariant], the known witness zbus[tokio]+zbus_macros[blocking-api], a seeded zbus sample (usually mixed "
+        "with a second crate), zvariant all-features, a seeded cheap sample; plus every selection of one or two single requests for "
+        "which the model predicts a failure outside the known class. thorough: every single feature of every crate, no-default, "
+        "all-features, powerset of the small crates, 105 PRNG samples, 2000 tree mixes. non-trivial = the selection names a feature "
+        "or more than one crate")
 
-KNOWN_CLASSES = {"gvariant_split", "blocking_split"}
+KNOWN_CLASSES = {"blocking_split"}      # gvariant_split was fixed in /repo by b1eb512d
 TARGET = "x86_64-unknown-linux-gnu"
 
 
@@ -100,9 +106,23 @@ def random_sel(rng, libs, kmax=4, runtime_bias=True):
     return reqs
 
 
+WITNESSES = [[("zbus", True, []), ("zvariant", True, ["gvariant"])],                  # fixed by b1eb512d: must build
+             [("zbus", False, ["tokio"]), ("zbus_macros", True, ["blocking-api"])]]    # known: blocking_split
+
+
 def tree_cases(rng, tier, ws):
+    """quick: ~20 selections (corpus + witnesses + all-features + 10 PRNG mixes); thorough: every single feature, no-default,
+    all-features, zbus x each zvariant feature, 2000 PRNG mixes"""
     libs = libs_of(ws)
-    out = []
+    out = list(WITNESSES)
+    out.append([("zbus", True, []), ("zvariant", True, ["gvariant"]), ("zbus_macros", True, ["gvariant"])])
+    for c in ("zbus", "zvariant"):
+        if c in libs:
+            out.append([(c, True, sorted(f for f in libs[c]["features"] if f != "default"))])
+    if tier == "quick":
+        for _ in range(10):
+            out.append(random_sel(rng, libs))
+        return ["tree " + sel_str(s) for s in out]
     for c in sorted(libs):
         feats = sorted(libs[c]["features"])
         out.append([(c, True, [])])
@@ -110,14 +130,10 @@ def tree_cases(rng, tier, ws):
         out.append([(c, True, [f for f in feats if f != "default"])])
         for f in feats:
             out.append([(c, False, [f])])
-    out.append([("zbus", True, []), ("zvariant", True, ["gvariant"])])
-    out.append([("zbus", False, ["tokio"]), ("zbus_macros", True, ["blocking-api"])])
-    out.append([("zbus", True, []), ("zvariant", True, ["gvariant"]), ("zbus_macros", True, ["gvariant"])])
     if "zvariant" in libs and "zbus" in libs:
         for f in sorted(libs["zvariant"]["features"]):
             out.append([("zbus", True, []), ("zvariant", False, [f])])
-    n = 150 if tier == "quick" else 2000
-    for _ in range(n):
+    for _ in range(2000):
         out.append(random_sel(rng, libs))
     return ["tree " + sel_str(s) for s in out]
 
@@ -127,10 +143,7 @@ def build_cases(rng, tier, ws):
     zb = sorted(f for f in libs.get("zbus", {"features": {}})["features"] if f != "default")
     zv = sorted(f for f in libs.get("zvariant", {"features": {}})["features"] if f != "default")
     small = [c for c in sorted(libs) if c not in ("zbus", "zvariant")]
-    fixed = [[("zbus", True, []), ("zvariant", True, ["gvariant"])],
-             [("zbus", False, ["tokio"]), ("zbus_macros", True, ["blocking-api"])],
-             [("zbus", True, []), ("zvariant", True, ["gvariant"]), ("zbus_macros", True, ["gvariant"])]]
-    out = list(fixed)
+    out = []
 
     def powerset(fs):
         for m in range(1 << len(fs)):
@@ -140,18 +153,25 @@ def build_cases(rng, tier, ws):
         return sorted(f for f in fs if rng.random() < p)
 
     if tier == "quick":
-        out.append([("zbus", True, zb)])                                                  # all features of the big crates
-        out.append([("zvariant", True, zv)])
-        rt = rng.choice(["tokio", "async-io"])
-        out.append([("zbus", False, sorted({rt, rng.choice(zb)}))])                       # a single zbus feature on one runtime
-        out.append([("zvariant", False, [rng.choice(zv)])])                               # a single zvariant feature
-        c = rng.choice(small)
-        out.append([(c, rng.random() < 0.5, sample(sorted(f for f in libs[c]["features"] if f != "default"), 0.5))])
-        out.append([("zvariant", rng.random() < 0.5, sample(zv, 0.4))])                   # powerset samples
-        out.append([("zbus", False, sorted(set(sample(zb, 0.3)) | {rng.choice(["tokio", "async-io"])}))])
-        out.append(random_sel(rng, libs, kmax=3))                                         # a mixed downstream crate
-        if rng.random() < 0.34:
-            out.append([("zbus", False, sample([f for f in zb if f not in ("async-io", "tokio", "tokio-vsock")], 0.2))])  # no runtime
+        # 6 builds. heavy lane (everything naming zbus, in this order so that the externals are compiled once):
+        out.append([("zbus", True, zb)])                                                  # 1 all features of zbus
+        out += WITNESSES                                                                  # 2 fixed witness, 3 known witness
+        mix = [("zbus", False, sorted(set(sample(zb, 0.25)) | {rng.choice(["tokio", "async-io"])}))]
+        if rng.random() < 0.6:                                                            # 4 a seeded zbus sample, usually mixed
+            c = rng.choice([c for c in sorted(libs) if c not in ("zbus", "zbus_xmlgen")])  #   with a second workspace crate
+            mix.append((c, rng.random() < 0.5, sample(sorted(f for f in libs[c]["features"] if f != "default"), 0.4)))
+        out.append(mix)
+        # light lane:
+        out.append([("zvariant", True, zv)])                                              # 5 all features of zvariant
+        k = rng.random()                                                                  # 6 a seeded cheap sample
+        if k < 0.5:
+            out.append([("zvariant", rng.random() < 0.5, sample(zv, 0.4))])
+        elif k < 0.8:
+            c = rng.choice(small)
+            out.append([(c, rng.random() < 0.5, sample(sorted(f for f in libs[c]["features"] if f != "default"), 0.5))])
+        else:
+            out.append([("zvariant", True, sample(zv, 0.2)), ("zvariant_utils", True, sample(["gvariant"], 0.5)),
+                        ("zvariant_derive", True, sample(["gvariant"], 0.5))])
     else:
         for c in small:
             fs = sorted(f for f in libs[c]["features"] if f != "default")
@@ -162,7 +182,9 @@ def build_cases(rng, tier, ws):
             out.append([("zbus", False, sorted({"tokio", f}))])
         for f in zv:
             out.append([("zvariant", False, [f])])
-        out += [[("zbus", True, [])], [("zbus", False, [])], [("zbus", False, ["async-io"])], [("zbus", False, ["tokio"])],
+        out += WITNESSES
+        out += [[("zbus", True, []), ("zvariant", True, ["gvariant"]), ("zbus_macros", True, ["gvariant"])],
+                [("zbus", True, [])], [("zbus", False, [])], [("zbus", False, ["async-io"])], [("zbus", False, ["tokio"])],
                 [("zbus", True, zb)], [("zvariant", True, zv)], [("zvariant", False, [])],
                 [("zvariant", True, []), ("zvariant_utils", True, ["gvariant"])],
                 [("zvariant", True, []), ("zvariant_derive", True, ["gvariant"])],
@@ -366,6 +388,8 @@ def search_cases(zmodel, ws, limit=4):
 
 def custom_run(pid, tier, seed, replay=None):
     t0 = time.time()
+    cpu0 = sum(os.times()[2:4])
+    n_skipped, lanes_used = 0, 0
     rng = random.Random(seed)
     prop = type("P", (), {"TRANSLATORS": TRANSLATORS})
     problems, tool_errors = [], []
@@ -405,7 +429,9 @@ def custom_run(pid, tier, seed, replay=None):
                     corpus += [l.strip() for l in open(os.path.join(cdir, f)) if l.strip() and not l.startswith("#")]
         wit = [e["case"] for e in kf if "case" in e]
         tcases = [c for c in corpus if c.startswith("tree ")] + tree_cases(rng, tier, ws)
-        bcases = [c for c in corpus + wit if c.startswith("build ")] + build_cases(rng, tier, ws)
+        # generated order first (it is chosen so that each lane compiles the external crates once); witnesses of
+        # known_findings (known and fixed) and corpus builds are part of it or appended
+        bcases = build_cases(rng, tier, ws) + [c for c in wit + corpus if c.startswith("build ")]
     dd = lambda xs: list(dict.fromkeys(xs))
     tcases, bcases = dd(tcases), dd(bcases)
 
@@ -424,15 +450,16 @@ def custom_run(pid, tier, seed, replay=None):
                 log("[C35] dropped %d cases the current graph does not define, e.g. %r" % (len(bad), bad[0]))
                 tcases = [c for c in tcases if c not in bad]
                 bcases = [c for c in bcases if c not in bad]
-            sample_idx = sorted(rng.sample(range(len(tcases)), min(6 if tier == "quick" else 25, len(tcases))))
-            xs = [tcases[i] for i in sample_idx] + bcases[:4]
+            sample_idx = sorted(rng.sample(range(len(tcases)), min(3 if tier == "quick" else 25, len(tcases))))
+            xs = [tcases[i] for i in sample_idx] + bcases[:2]
             okx, outx = core.vm_crosscheck(pid, RUN_MODULE, xs, [mt[c] for c in xs])
             if not okx:
                 tool_errors.append("extracted model and vm_compute disagree on the sample: " + outx[-400:])
             scr = Scratch()
             # ---- K1: cargo's own resolution
-            ti = run_trees(scr, tcases, ws, 150 if tier == "quick" else 1200)
+            ti = run_trees(scr, tcases, ws, 60 if tier == "quick" else 1200)
             skipped = [c for c in tcases if ti[c] is None]
+            n_skipped = len(skipped)
             if skipped:
                 log("[C35] %d of %d tree cases skipped (time budget)" % (len(skipped), len(tcases)))
             tcases = [c for c in tcases if ti[c] is not None]
@@ -459,6 +486,7 @@ def custom_run(pid, tier, seed, replay=None):
             limit = os.environ.get("C35_BUILD_LIMIT")   # self-test knob: keep only the first n build cases (search hits,
             if limit and not replay:                    # witnesses, repaired witness, all-features come first)
                 bcases = bcases[:max(1, int(limit))]
+            lanes_used = lanes
             bi = run_builds(scr, bcases, lanes)
             for c in bcases:
                 m, s, k = (mt[c].split("\t") + ["-", "-"])[:3]
@@ -527,6 +555,8 @@ def custom_run(pid, tier, seed, replay=None):
             "samples": samples or [{"note": "no case could be run"}],
             "distribution": dist, "builds": build_log,
             "tree_cases": len(tcases), "build_cases": len(bcases),
+            "tree_cases_skipped_time_budget": n_skipped, "build_lanes": lanes_used,
+            "cpu_s_children": round(sum(os.times()[2:4]) - cpu0, 1),
             "disagreements_checked": len(disagreements), "known_class_hits": {k: len(v) for k, v in known_hits.items()},
             "search_extra_cases": searched, "tool_errors": tool_errors,
             "graph": ({"crates": len(ws["crates"]), "features": sum(len(c["features"]) for c in ws["crates"]),
@@ -541,8 +571,9 @@ def custom_run(pid, tier, seed, replay=None):
             hits = known_hits[e["class"]]
             print("KNOWN-FINDING: property=%s %s [class %s, e.g. case %r, %d case(s) this run]" %
                   (pid, e["what_fails"], e["class"], e.get("case", hits[0]), len(hits)))
-    log("[%s] tier=%s seed=%s tree=%d build=%d P_ok=%s C_ok=%s O_ok=%s theorems=%d axioms=%s wall=%.1fs" %
-        (pid, tier, seed, len(tcases), len(bcases), p_ok, c_ok, not violations, len(theorems), coq["axioms"], time.time() - t0))
+    log("[%s] tier=%s seed=%s tree=%d build=%d P_ok=%s C_ok=%s O_ok=%s theorems=%d axioms=%s wall=%.1fs cpu(children)=%.0fs" %
+        (pid, tier, seed, len(tcases), len(bcases), p_ok, c_ok, not violations, len(theorems), coq["axioms"], time.time() - t0,
+         sum(os.times()[2:4]) - cpu0))
     for te in tool_errors:
         log("TOOL-ERROR:", te)
     if status:
